@@ -364,6 +364,24 @@ static const uint8_t R[64] = {
 };
 
 
+/* Largest intermediate increase of the code length within the 6-bit window
+   (same patterns as above).  */
+static const uint8_t HI[64] = {
+  0, 0, 0, 0, 0, 0, 0, 0, 0, 0, 0, 0, 0, 0, 0, 0,
+  0, 0, 0, 0, 0, 0, 0, 0, 0, 0, 0, 0, 0, 0, 0, 0,
+  1, 1, 1, 1, 1, 1, 1, 1, 2, 2, 3, 2, 1, 1, 1, 1,
+  0, 0, 0, 0, 0, 0, 0, 0, 0, 0, 1, 0, 0, 0, 0, 0,
+};
+
+/* Largest intermediate decrease of the code length within the 6-bit window.  */
+static const uint8_t LO[64] = {
+  0, 0, 0, 0, 0, 0, 0, 0, 0, 0, 0, 0, 0, 0, 0, 0,
+  0, 0, 0, 0, 0, 0, 0, 0, 0, 0, 0, 0, 0, 0, 0, 0,
+  0, 0, 0, 0, 0, 0, 0, 0, 0, 0, 0, 0, 0, 0, 0, 1,
+  1, 1, 1, 1, 1, 1, 1, 1, 1, 1, 1, 1, 2, 2, 2, 3,
+};
+
+
 #define DECLARE unsigned w; uint64_t v; const uint32_t *next, *limit,   \
                                           *tt_limit; uint32_t *tt
 #define SAVE() (bs->buff = v, bs->live = w, bs->data = next,    \
@@ -581,10 +599,10 @@ retrieve(struct decoder_state *restrict ds, struct bitstream *bs)
       while (rs->j < rs->alpha_size) {
         unsigned k = PEEK(6u);
 
-        rs->code_len[rs->j] += R[k];
-        if (unlikely(rs->code_len[rs->j] < 3 + MIN_CODE_LENGTH ||
-                     rs->code_len[rs->j] > 3 + MAX_CODE_LENGTH))
+        if (unlikely(rs->code_len[rs->j] < MIN_CODE_LENGTH + LO[k] ||
+                     rs->code_len[rs->j] + HI[k] > MAX_CODE_LENGTH))
           return ERR_DELTA;
+        rs->code_len[rs->j] += R[k];
         rs->code_len[rs->j] -= 3;
         k = L[k];
         if (k != 6u) {
